@@ -358,7 +358,7 @@ func TestThorough(t *testing.T) {
 	if shard, _ := evid.Shard(); shard == 0 {
 		fix.Pinned(t, prop, replay)
 	}
-	fix.Check(t, "create", 1500, func(rt *rapid.T) { run(rt, drawCase(rt, 300)) })
+	fix.Check(t, "create", 4000, func(rt *rapid.T) { run(rt, drawCase(rt, 300)) })
 }
 
 func TestReplay(t *testing.T) {
